@@ -64,13 +64,14 @@ type c16Scenario struct {
 	Reps    int        `json:"repetitions"`
 
 	// kind = sequence | concurrent (seq.go): ONE compiled expression per view over many different matches
-	Kind    string       `json:"kind,omitempty"`
-	Lines   []c16SeqLine `json:"lines,omitempty"`    // the distinct lines with their indices (one shared name table)
-	Seq     []int        `json:"sequence,omitempty"` // sequence: the order in which the lines are fed (Workers: 1)
-	Total   int          `json:"total,omitempty"`    // concurrent: number of lines fed, drawn with seq_seed
-	SeqSeed uint64       `json:"seq_seed,omitempty"`
-	Queries []string     `json:"queries,omitempty"` // {json <view> <member>} expressions evaluated besides the views
-	Extract int          `json:"extract_view"`      // which view is the extractor's own expression (0 {.} 1 {#} 2 {.#})
+	Kind     string       `json:"kind,omitempty"`
+	Lines    []c16SeqLine `json:"lines,omitempty"`    // the distinct lines with their indices (one shared name table)
+	Seq      []int        `json:"sequence,omitempty"` // sequence: the order in which the lines are fed (Workers: 1)
+	Total    int          `json:"total,omitempty"`    // concurrent: number of lines fed, drawn with seq_seed
+	SeqSeed  uint64       `json:"seq_seed,omitempty"`
+	Queries  []string     `json:"queries,omitempty"`                   // {json <view> <member>} expressions evaluated besides the views
+	RaceReps int          `json:"race_detector_repetitions,omitempty"` // kind = startup: start-ups in the -race build
+	Extract  int          `json:"extract_view"`                        // which view is the extractor's own expression (0 {.} 1 {#} 2 {.#})
 }
 type c16KV struct {
 	Key string `json:"key_hex"`
@@ -101,7 +102,7 @@ func unhexs(s string) string {
 
 func factoryOf(in c16In) (matchers.Factory, error) {
 	switch in.Via {
-	case "regex", "pipeline":
+	case "regex", "pipeline", "startup":
 		re, err := fastregex.CompileEx(unhexs(in.Pattern), false)
 		if err != nil {
 			return nil, err
@@ -594,6 +595,14 @@ func c16Run(in c16In) (out c16Out) {
 			notes = append(notes, note)
 		}
 	}
+	var startT [3][]string
+	if in.Via == "startup" && in.Scenario != nil {
+		var note string
+		startT, note = startupTexts(in)
+		if note != "" {
+			notes = append(notes, note)
+		}
+	}
 	isSeq := (in.Via == "sequence" || in.Via == "concurrent") && in.Scenario != nil
 	var seqT [3][]string
 	seqOK := true
@@ -607,7 +616,9 @@ func c16Run(in c16In) (out c16Out) {
 	for vi, v := range views {
 		var texts []string
 		var note string
-		if isSeq {
+		if in.Via == "startup" {
+			texts = startT[vi]
+		} else if isSeq {
 			texts = seqT[vi]
 		} else if in.Via == "pipeline" {
 			if pipeTexts[vi] != nil {
@@ -805,6 +816,9 @@ func classify(in c16In) ([]string, bool) {
 	}
 	if in.Via == "cli" {
 		tagset[fmt.Sprintf("cli:keys=%d", len(in.Keys))] = true
+	}
+	if in.Via == "startup" {
+		tagset["stateful:fresh-start-up(8 workers, named groups)"] = true
 	}
 	if (in.Via == "sequence" || in.Via == "concurrent") && in.Scenario != nil {
 		sc := in.Scenario
@@ -1473,6 +1487,17 @@ func c16GenBody(r *Rng, n int, tier string) []Case {
 		cases = append(cases, c16Case(in))
 	}
 	cleanMode, noCtrl = false, false
+	// fresh start-ups: a newly compiled regexp with 4..8 named groups under 8 workers, hundreds of times
+	nstart := 3
+	if tier == "thorough" {
+		nstart = 12
+	}
+	cleanMode, noCtrl = false, true
+	for i := 0; i < nstart; i++ {
+		for _, in := range genStartup(r) {
+			cases = append(cases, c16Case(in))
+		}
+	}
 	// one compiled expression over many matches: sequences (Workers: 1) and concurrent workers
 	nseq, nconc := 8, 3
 	if tier == "thorough" {
@@ -1535,6 +1560,10 @@ func main() {
 		seqChildMain()
 		return
 	}
+	if len(os.Args) >= 2 && os.Args[1] == "startupchild" {
+		startupChildMain()
+		return
+	}
 	if len(os.Args) >= 2 && os.Args[1] == "rawbatch" {
 		rawBatchMain()
 		return
@@ -1549,6 +1578,7 @@ func main() {
 		Rule: "every evaluation runs in a child process of the harness (a crash or hang is the observation `no text` of that one case). fixed part: values, member names and lines with every proper prefix of a 2-, 3- and 4-byte UTF-8 encoding (c3, e2, e2 80, e2 82, ef, ef bb, f0, f0 9f, f0 9f 98, f4, f4 8f, f4 8f bf) at the end, at the start, before an ASCII byte and alone, and complete U+2028, U+2029, U+0085, U+FEFF; every byte value 0..255 alone in a named group and embedded in a numbered group; every numeric shape (007, 1., .5, -1, 1e5, 00.1, -0, +1, ...) and boolean shape (ASCII case variants; near-misses that are equal only under Unicode folding or not at all: U+017F long s, Kelvin sign U+212A, full-width letters, combining marks, look-alikes) alone under 0/1/2 names; 0..4 names over the same groups. " +
 			"pipeline part (8 fixed-shape scenarios, then about 1/6 of the seeded cases): 2..4 sources whose line numbers all start at 1 (one line each / one-line batches interleaved round robin / only first lines match / free; lines repeated across sources) are pushed through ONE extractor.New with a real regexp matcher and a JSON view as the expression, with Workers 1 and 2..4, twice each, either as scripted InputBatches in a generated interleaving or as temp files under $VERIF_WORK read by batchers.OpenFilesToChan; every emitted match is grouped by its line and each distinct matching line is one case: all texts ever rendered for that line (whatever was rendered before it) must be the one text of its own captures. " +
 			"width part: scripted matches with 0, 1, 9, 10, 11, 99, 100, 101, 110, 130, 450 and 1000 capture groups (fields of words, numbers, empty texts, unmatched groups), unnamed and named (names on the last / first / middle / 100th group), a regexp with 130 and 100 groups and a dissect pattern with 105 and 99 tokens, and one sequence scenario over lines of width 0..450 with {json <view> <index>} queries for the indices 0, 9, 10, 11, 99, 100, 101, 110, 129, 449, 450: the member name of group i is its decimal numeral for every i. " +
+			"start-up part (3 scenarios in quick, 12 in thorough; one case per line): a regexp with 4..8 named groups is compiled afresh and handed to an extractor with 8 workers over 24 one-line batches, 120 times per view (first with one worker), and 6 times per view in a build with the race detector (bin/C16race, halt on the first report); all texts any worker ever rendered for a line must be the one text of that line; a runtime abort or a race report fails the scenario's cases. " +
 			"stateful part (8 sequence + 3 concurrent scenarios in quick, 60 + 12 in thorough; one case per distinct line): {.}, {#}, {.#} and {json <view> <member>} queries are each compiled ONCE, optimised and unoptimised, and evaluated (inside an extractor.IgnoreSet probe, i.e. on the workers' real expression contexts, besides the extractor's own shared key builder) over 5..9 different matches of one scripted matcher — an all-empty probe-like context first, different group counts, unmatched groups, lines sharing the text of group 0, texts needing escapes followed by plain ones, adjacent repeats — either as one sequence with Workers 1 (every evaluation also compared with a fresh compile) or from 4..8 workers at once behind a start barrier, 2500 evaluations of every expression per worker (every 16th compared with a fresh compile); all texts ever produced for a line must be the one text of that line alone, and every query must give the member's text. " +
 			"seeded part: 1/6 `rare expression -r -n -d ... -k k=v` run in-process through cmd.GetSupportedCommands (0..4 data, 0..4 keys, the -k order rotated between evaluations; no NUL, no comma, no '=' in keys, valid UTF-8 only, no surrounding white space: what the flag library passes on unchanged); of the rest 60% scripted matcher (0..5 groups with nested/overlapping/empty/unmatched spans, 0..4 names incl. the context's own keys src, line, ., #, .#, #., @ (source name and line numbers differ from every capture), digits-only, duplicate group, out-of-range index, names needing escapes), 20% real regexp ((?P<name>...) fields separated by 0x1e, optional groups), 20% real dissect (arbitrary token names). " +
 			"group texts: numeric shapes, boolean shapes, log-like words, raw random bytes, digit noise, words mixed with quotes/backslashes/control characters/non-ASCII/invalid UTF-8. " +
